@@ -446,7 +446,7 @@ def check(pid, tier, seed):
                 notes.append("runner %s unavailable: %s" % (rdir, err[:200]))
         # case files: corpus first, then generated
         batches = []
-        for cp in sorted(glob.glob(os.path.join(ROOT, "corpus", pid.lower(), lname + "*.cases"))):
+        for cp in sorted(glob.glob(os.path.join(ROOT, "corpus", pid.lower(), lname + "_*.cases"))):
             obs = os.path.join(wd, "obs_" + os.path.basename(cp) + ".txt")
             rc, out = sh([exe, "run", cp, obs], env=GOENV, timeout=leg.get("timeout", 3000))
             if rc != 0:
